@@ -101,6 +101,7 @@ type Specs struct {
 	Contracts map[string]*Contract
 	Theories  map[string]*Theory
 	Lemmas    map[string]*Lemma
+	Observers map[string]bool
 	Ghosts    []GhostVar          // flat: "HS.in"
 	Records   map[string]*RecType // "HS"
 	SortAlias map[string]string   // "Hash" -> "(_ BitVec 256)"
@@ -248,6 +249,16 @@ func (sp *Specs) parseText(file string, lines []string, nums []int) error {
 				return fail(fmt.Errorf("sort alias needs name and sort"))
 			}
 			sp.SortAlias[f[0]] = strings.TrimSpace(f[1])
+			cur = nil
+			continue
+		case "observer":
+			// observer NAME: the ghost (record) NAME is an observation log of the current activation,
+			// written only by history clauses; it is outside every frame obligation (a callee's own
+			// observations are not the caller's)
+			if sp.Observers == nil {
+				sp.Observers = map[string]bool{}
+			}
+			sp.Observers[strings.TrimSpace(rest)] = true
 			cur = nil
 			continue
 		case "ghost":
